@@ -34,6 +34,26 @@ HAND = [
 ]
 
 
+def type_shape_programs():
+    """type definitions at the edges of the size computations (enum tag width for 1, 2, 3, 4, 5, 8, 9 variants, payloads
+    of size 0, nesting), each used as parameter type, return type, literal and match scrutinee"""
+    out = []
+    for n in [1, 2, 3, 4, 5, 8, 9]:
+        for payload in ["", "(u8)", "(bool, u16)", "(())"]:
+            vs = ", ".join(f"V{k}{payload if k % 2 == 0 else ''}" for k in range(n))
+            arms = " ".join(
+                f"E::V{k}{'(..)' if False else ''} => {k}u8," if not (payload and k % 2 == 0)
+                else f"E::V{k}({', '.join('_' + str(j) for j in range(payload.count(',') + 1))}) => {k}u8," for k in range(n))
+            out.append(f"enum E {{ {vs} }}\npub fn main(e: E, x: u8) -> (E, u8) {{ let r = match e {{ {arms} }}; (e, r ^ x) }}")
+            lit = "E::V0" + {"": "", "(u8)": "(x)", "(bool, u16)": "(x > 3u8, 7u16)", "(())": "(())"}[payload]
+            out.append(f"enum E {{ {vs} }}\npub fn main(x: u8) -> E {{ {lit} }}")
+    out.append("enum U { Only }\nstruct S { u: U, v: u8 }\npub fn main(s: S) -> (U, u8) { (s.u, s.v) }")
+    out.append("enum W { Val(u8) }\npub fn main(x: u8) -> W { W::Val(x) }")
+    out.append("enum W { Val(u8) }\npub fn main(w: W) -> u8 { match w { W::Val(v) => v } }")
+    out.append("enum U { Only }\npub fn main(u: U, x: u8) -> [U; 2] { [u, U::Only] }")
+    return out
+
+
 def literal_operand_programs():
     """every operator with an unsuffixed literal operand (0, 1, 2, a larger one) on every integer type, in both
     operand positions: the literal's own width (32 bits when unsuffixed) must never leak into the result"""
@@ -67,10 +87,13 @@ def run(ck):
     if quick:
         lits = rng.sample(lits, 220) + [p for p in lits if "* 0" in p or "0 *" in p][:40]
     sources += [("handlit%d" % i, s) for i, s in enumerate(lits)]
+    sources += [("shape%d" % i, s) for i, s in enumerate(type_shape_programs())]
     sources += [(nm + "-annotated", s) for nm, s in annotated]
     sources += [(nm + "-inferred", strip_annotations(rng, s)) for nm, s in annotated]
     sources += [(nm, s) for nm, s in PC.corpus_sources()[:60]]
     recs = PC.run_programs(ck, sources, "c05", ninputs=4)
+    import lowertie
+    lowertie.tie_pass(ck, [x for x in sources if not x[0].startswith("handlit")], max_programs=200 if quick else 4000)
     # sizes according to the model (Sem.sizeof on the exported types)
     sizejobs, idx = [], {}
     for i, rec in enumerate(recs):
